@@ -310,7 +310,8 @@ def discharge(ob, timeout_s=10, both=False):
 # ------------------------------------------------------------------------------------------------
 class Unit:
     """a unit of verification work: fn(ip, ctx) -> list[Obligation]; explored over all paths in one worker"""
-    def __init__(self, name, prop, fn, params=None, max_paths=20000, functions=(), witness=None):
+    def __init__(self, name, prop, fn, params=None, max_paths=20000, functions=(), witness=None, proves=None):
+        self.proves = proves        # qualified name of the function whose call-site contract this unit discharges
         self.name = name
         self.prop = prop
         self.fn = fn
@@ -332,6 +333,11 @@ def _worker_init(src_root, spec_paths):
 
 
 def make_interp(contracts=None):
+    """contracts listed in PYVC_INLINE (their proof failed on this run) are dropped: the callee's body is executed
+    instead, so that a property-level obligation of the caller decides (DESIGN.md 2.7)"""
+    inline = set(x for x in os.environ.get("PYVC_INLINE", "").split(",") if x)
+    if contracts and inline:
+        contracts = {k: v for k, v in contracts.items() if k not in inline}
     ip = Interp(_WORKER["P"], contracts=contracts)
     return ip
 
@@ -352,7 +358,7 @@ def run_unit(args):
         cused = set()
 
         def run(ctx):
-            return unit.fn(ip, ctx, **unit.params)
+            return unit.fn(ip, ctx, **{k: v for k, v in unit.params.items() if k != "may_be_empty"})
         for ctx, obs in explore(run, max_paths=unit.max_paths):
             out["paths"] += 1
             used |= ctx.used_models
